@@ -13,6 +13,7 @@ import (
 	"encoding/hex"
 	"encoding/json"
 	"fmt"
+	"sort"
 	"strings"
 	"time"
 
@@ -35,6 +36,8 @@ type histNode struct {
 }
 
 type history struct {
+	// acct: for every momentum of the history, the frontier (hash, height) of every account after that momentum (lazily built)
+	acct    map[types.Hash]map[types.Address]types.HashHeight
 	byHash  map[types.Hash]*histNode
 	blockIn map[types.Hash][]types.Hash // account-block hash -> momentums (of any branch) that contain it
 	blk     map[types.Hash][]byte       // every account block the producer made (descendants included), by hash
@@ -68,6 +71,86 @@ func (h *history) record(dm *nom.DetailedMomentum) *histNode {
 	}
 	h.byHash[n.hash] = n
 	return n
+}
+
+// acctAfter: the account frontiers after the momentum `hash` (on the branch that momentum lies on).
+func (h *history) acctAfter(hash types.Hash) map[types.Address]types.HashHeight {
+	if h.acct == nil {
+		h.acct = map[types.Hash]map[types.Address]types.HashHeight{}
+	}
+	if m, ok := h.acct[hash]; ok {
+		return m
+	}
+	n := h.byHash[hash]
+	out := map[types.Address]types.HashHeight{}
+	if n == nil {
+		return out
+	}
+	if n.height > 1 {
+		for a, id := range h.acctAfter(n.prev) {
+			out[a] = id
+		}
+	}
+	for _, bb := range n.blocks {
+		if b, err := nom.DeserializeAccountBlock(bb); err == nil {
+			out[b.Address] = b.Identifier()
+		}
+	}
+	h.acct[hash] = out
+	return out
+}
+
+// extraDonors: genuine user blocks of the producer's history that the momentum `m` does NOT list and that are valid on their own on
+// the state `m` is verified on (the state after its parent): a block of an account that has no block in `m`, whose previous block is
+// that account's frontier after the parent, that acknowledges an ancestor of `m`, and — a receive — whose send an ancestor confirmed.
+// In the producer's history these are the blocks of the SIBLING momentums of `m` (another branch of the history forks at its parent).
+func (h *history) extraDonors(dm *nom.DetailedMomentum) []*nom.AccountBlock {
+	m := dm.Momentum
+	if m.Height < 2 || h.byHash[m.PreviousHash] == nil {
+		return nil
+	}
+	anc := map[types.Hash]bool{}
+	for cur := h.byHash[m.PreviousHash]; cur != nil; cur = h.byHash[cur.prev] {
+		anc[cur.hash] = true
+		if cur.height <= 1 {
+			break
+		}
+	}
+	own := map[types.Address]bool{}
+	ownHash := map[types.Hash]bool{}
+	for _, b := range dm.AccountBlocks {
+		own[b.Address] = true
+		ownHash[b.Hash] = true
+	}
+	fr := h.acctAfter(m.PreviousHash)
+	var hashes []types.Hash
+	for bh := range h.blk {
+		hashes = append(hashes, bh)
+	}
+	sort.Slice(hashes, func(i, j int) bool { return bytes.Compare(hashes[i][:], hashes[j][:]) < 0 })
+	var out []*nom.AccountBlock
+	for _, bh := range hashes {
+		b, err := nom.DeserializeAccountBlock(h.blk[bh])
+		if err != nil || ownHash[bh] || own[b.Address] || !(b.BlockType == nom.BlockTypeUserSend || b.BlockType == nom.BlockTypeUserReceive) {
+			continue
+		}
+		if b.Previous() != fr[b.Address] || !anc[b.MomentumAcknowledged.Hash] {
+			continue
+		}
+		if b.BlockType == nom.BlockTypeUserReceive {
+			confirmed := false
+			for _, mh := range h.blockIn[b.FromBlockHash] {
+				if anc[mh] {
+					confirmed = true
+				}
+			}
+			if !confirmed {
+				continue
+			}
+		}
+		out = append(out, b)
+	}
+	return out
 }
 
 // dm materialises a fresh copy (so corruptions never leak into the history).
@@ -217,7 +300,9 @@ func buildHistory(c *Ctx, a *producer, L int, forks []forkSpec) *history {
 type elem struct {
 	dm    *nom.DetailedMomentum
 	valid bool   // producer's own bytes (true) or corrupted by the generator (false)
-	note  string // corruption kind
+	note  string // corruption kind (one token)
+	// detail: free text for the failure report
+	detail string
 	// lenient: one account block was altered only in fields the node recomputes for itself (plasma fields, uncovered fields of
 	// descendants, the stand-alone copy of a contract send). Adopting the momentum (with the producer's bytes — M1 checks that) and
 	// refusing it both satisfy C16; the `valid` bit of the line follows what the node did with this element.
@@ -235,7 +320,8 @@ func elemTok(e elem) string {
 	return fmt.Sprintf("%d:%s:%s:%d", m.Height, h8e(m.Hash), h8e(m.PreviousHash), v)
 }
 
-var corruptKinds = []string{"sig", "changes", "hash", "producer", "dropblock", "addblock", "blocksig", "timestamp", "blockamount", "prevhash"}
+var corruptKinds = []string{"sig", "changes", "hash", "producer", "dropblock", "addblock", "blocksig", "timestamp", "blockamount", "prevhash",
+	"extrablock-front", "extrablock-middle", "extrablock-end"}
 
 // lastUserBlock: the account block the block-level corruptions (blocksig, blockamount) alter; -1 if there is none.
 func lastUserBlock(dm *nom.DetailedMomentum) int {
@@ -261,6 +347,36 @@ func corrupt(c *Ctx, hist *history, e *elem, kind string) {
 		if userBlock < 0 {
 			kind = "changes"
 		}
+	case "extrablock-front", "extrablock-middle", "extrablock-end":
+		// one MORE account block than the momentum lists: a genuine block that is valid on its own at this point (see extraDonors),
+		// in front of / between / behind the listed ones. Every listed block is there and verifies; only the comparison of the
+		// delivered blocks with the momentum's content can refuse the element.
+		donors := hist.extraDonors(e.dm)
+		if len(donors) == 0 {
+			c.Hit("corrupt-extrablock-no-donor")
+			kind = "addblock"
+			break
+		}
+		d := donors[c.R.Intn(len(donors))]
+		n := len(e.dm.AccountBlocks)
+		at := 0
+		switch kind {
+		case "extrablock-middle":
+			at = n / 2
+			if n >= 2 {
+				at = 1 + c.R.Intn(n-1)
+			}
+		case "extrablock-end":
+			at = n
+		}
+		bs := append([]*nom.AccountBlock{}, e.dm.AccountBlocks[:at]...)
+		bs = append(bs, d)
+		e.dm.AccountBlocks = append(bs, e.dm.AccountBlocks[at:]...)
+		e.valid = false
+		e.note = kind
+		e.detail = fmt.Sprintf("unlisted block %s#%d:%s, valid on its own, at position %d of the %d delivered blocks", addrName(d.Address), d.Height, h8e(d.Hash), at, n+1)
+		c.Hit("corrupt-" + kind)
+		return
 	}
 	switch kind {
 	case "sig":
@@ -393,7 +509,10 @@ type syncFollower struct {
 	id       int
 	switches int  // how many times this node left its chain (or was rolled back)
 	lastOK   bool // the most recent delivery was accepted completely
-	history  []string
+	// extraPooled: a delivery carried an unlisted account block that is valid on its own: like a gossiped block it may stay in the
+	// node's pool of unconfirmed blocks for good (the pool is then no longer compared with that of a node that only saw the chain)
+	extraPooled bool
+	history     []string
 }
 
 func (f *syncFollower) remember(kind, class string) {
@@ -434,18 +553,35 @@ func isPrefix(a, b []types.Hash) bool { return commonPrefix(a, b) == len(a) }
 // deliver hands one batch to the real InsertChain, prints the line and evaluates the monitors.
 // Returns false when the follower must be retired (a monitor failed or its state is no longer trusted).
 func (r *syncRun) deliver(f *syncFollower, kind string, batch []elem) bool {
+	return r.deliverVia(f, kind, batch, nil)
+}
+
+// deliverVia: via (nil = a plain call) hands the batch to InsertChain in its own way and returns the node's chain at the moment
+// the insertion took place together with InsertChain's result.
+func (r *syncRun) deliverVia(f *syncFollower, kind string, batch []elem, via func(dms []*nom.DetailedMomentum) (before []types.Hash, idx int, err error, pn interface{})) bool {
 	c := r.c
 	r.ops++
 	if kind != "extend-sync" {
 		r.tests++
 	}
-	before := f.hashes()
 	dms := make([]*nom.DetailedMomentum, len(batch))
 	toks := make([]string, len(batch))
 	for i, e := range batch {
 		dms[i] = e.dm
+		if strings.HasPrefix(e.note, "extrablock") {
+			f.extraPooled = true
+		}
 	}
-	idx, err, pn := f.insertChain(wire(dms))
+	var before []types.Hash
+	var idx int
+	var err error
+	var pn interface{}
+	if via == nil {
+		before = f.hashes()
+		idx, err, pn = f.insertChain(wire(dms))
+	} else {
+		before, idx, err, pn = via(wire(dms))
+	}
 	f.lastOK = err == nil && pn == nil
 	after := f.hashes()
 	class := classifyInsertErr(err)
@@ -471,7 +607,11 @@ func (r *syncRun) deliver(f *syncFollower, kind string, batch []elem) bool {
 	var notes []string
 	for i, e := range batch {
 		if e.note != "" {
-			notes = append(notes, fmt.Sprintf("element %d: %s", i, e.note))
+			nt := fmt.Sprintf("element %d: %s", i, e.note)
+			if e.detail != "" {
+				nt += " (" + e.detail + ")"
+			}
+			notes = append(notes, nt)
 		}
 	}
 	desc := fmt.Sprintf("kind=%s batch=[%s] frontier-before=%d:%s", kind, strings.Join(toks, " "), len(before), h8e(before[len(before)-1]))
@@ -528,6 +668,22 @@ func (r *syncRun) deliver(f *syncFollower, kind string, batch []elem) bool {
 		if err != nil || after[len(after)-1] != last.Hash {
 			c.Fail("C16 class=genuine-extension-refused a batch of genuine momentums that extends the node's frontier was not adopted: index %d, error %v, "+
 				"frontier %d:%s; previous deliveries to this node: %s; %s", idx, err, len(after), h8e(after[len(after)-1]), f.recent(), desc)
+			ok = false
+		}
+	}
+	// M6: idempotence — a batch of which the node holds every element (same height, same hash) changes nothing and is no error
+	if pn == nil && len(batch) > 0 {
+		allHeld := true
+		for _, e := range batch {
+			m := e.dm.Momentum
+			if m.Height < 1 || int(m.Height) > len(before) || before[m.Height-1] != m.Hash {
+				allHeld = false
+				break
+			}
+		}
+		if allHeld && (err != nil || !sameHashes(before, after)) {
+			c.Fail("C16 class=known-batch-not-noop the node held every momentum of the batch when it was inserted, yet InsertChain returned (%d, %v) and the chain went "+
+				"%d:%s -> %d:%s; %s", idx, err, len(before), h8e(before[len(before)-1]), len(after), h8e(after[len(after)-1]), desc)
 			ok = false
 		}
 	}
@@ -685,7 +841,7 @@ func (r *syncRun) noTrace(f *syncFollower, fresh *follower) {
 	// (account blocks of a refused batch may stay pooled like any gossiped block; the pool is compared when the node's last
 	// delivery was accepted in full, i.e. right after a completed switch or extension)
 	pa, pb := f.ch.GetAllUncommittedAccountBlocks(), fresh.ch.GetAllUncommittedAccountBlocks()
-	if f.lastOK && len(pa) != len(pb) {
+	if f.lastOK && !f.extraPooled && len(pa) != len(pb) {
 		c.Fail("C06: the unconfirmed pool of follower %d (after %d chain switches) holds %d blocks, that of a node that only saw its current chain %d", f.id, f.switches, len(pa), len(pb))
 		return
 	}
@@ -808,7 +964,9 @@ func init() {
 		// (that branch also leaves a slot empty right after the fork point: its statistics of the tick — and, with the epochs of
 		// ten minutes = two ticks this stream runs on, of the EPOCH that ends between the fork point and the trunk tip — differ
 		// from the trunk's, so statistics kept from the abandoned branch are visible)
-		forks := []forkSpec{{36, 44, 0}, {31, 36, 0}, {30, 33, 0}, {17, 20, 0}, {6, 9, 0}, {2, 2, 0}, {1, 1, 0}, {22, 40, 1}}
+		// (the three one-momentum branches 3, 4 and 9 below the tip give more momentums a SIBLING: its block is valid on the state the
+		// momentum is verified on and not listed by it — the extrablock corruptions)
+		forks := []forkSpec{{36, 44, 0}, {31, 36, 0}, {30, 33, 0}, {17, 20, 0}, {6, 9, 0}, {2, 2, 0}, {1, 1, 0}, {22, 40, 1}, {3, 1, 0}, {4, 1, 0}, {9, 2, 0}}
 		if c.Tier == "thorough" {
 			L = 110
 			forks = append(forks, forkSpec{50, 60, 0}, forkSpec{12, 30, 2}, forkSpec{3, 8, 0})
@@ -968,6 +1126,11 @@ func init() {
 
 		// ---- part 2c: directed: every account-block mutation (s_syncbatches_ab.go) once, each followed by the genuine version
 		r.directedAB()
+
+		// ---- part 2d: directed: deliveries that wait for the insert lock while the node's chain grows; momentums delivered with one
+		//      more account block than they list (s_syncbatches_conc.go)
+		r.directedConcurrent()
+		r.directedExtraBlock()
 
 		// ---- part 3: random operations on short-lived followers placed near the fork points ----------------
 		for r.tests < c.N {
@@ -1197,6 +1360,19 @@ func (r *syncRun) invalidOp(f *syncFollower, cur []types.Hash, p int, forceKind 
 	ck := corruptKinds[c.R.Intn(len(corruptKinds))]
 	if forceKind != "" {
 		ck = forceKind
+	}
+	if strings.HasPrefix(ck, "extrablock") {
+		// an element that has a donor (a momentum with a sibling on another branch), if the batch holds one
+		var with []int
+		for i := first; i < len(b); i++ {
+			if len(r.hist.extraDonors(b[i].dm)) > 0 {
+				with = append(with, i)
+			}
+		}
+		if len(with) > 0 {
+			pos = with[c.R.Intn(len(with))]
+			c.Hit("extrablock-random-with-donor")
+		}
 	}
 	// InsertChain never looks at the delivered copy of an account block the node already pools under the same (address, hash,
 	// height): `if patch := c.chain.GetPatch(…); patch != nil { continue }`, and the momentum is then built from the pooled, verified
